@@ -90,6 +90,9 @@ func prepare(mk func(i int, mask map[string]bool) *harness.Run, from, to int, ma
 	for i := from; i < to; i++ {
 		for _, m := range masks {
 			r := mk(i, m)
+			if r.Feature("template", 1, 4) {
+				continue // templates have no gc reference
+			}
 			p := skel.Gen(r.S, skel.Options{Feature: r.Feature})
 			gp := gcref.Prog{Files: p.Files}
 			if !seen[gp.Key()] {
@@ -305,7 +308,225 @@ func diffEvents(got, want []string) string {
 	return fmt.Sprintf("first difference at event %d: got %s, want %s (got %d events %v, want %d events %v)", i, g, w, len(got), got, len(want), want)
 }
 
+// ---- templates ------------------------------------------------------------
+
+// tmplSet is a generated template set: index.html imports lib.html (and
+// optionally extends layout.html); every statement is on its own line and a
+// statement id is 1000*file + line (file 0 index.html, 1 lib.html, 2
+// layout.html).
+type tmplSet struct {
+	files map[string]string
+	ids   []int // ids of Point calls in source order (informational)
+}
+
+var tmplFiles = []string{"index.html", "lib.html", "layout.html"}
+
+func genTemplateSet(r *harness.Run) *tmplSet {
+	s := r.S
+	ts := &tmplSet{files: map[string]string{}}
+	body := func(file int, lines *[]string, n int, allowPanic bool) {
+		for i := 0; i < n; i++ {
+			id := file*1000 + len(*lines) + 1
+			switch s.Pick(5, 2, 1, 1) {
+			case 0:
+				*lines = append(*lines, fmt.Sprintf("{%% Point(%d) %%}", id))
+				ts.ids = append(ts.ids, id)
+			case 1:
+				*lines = append(*lines, fmt.Sprintf("text%d {{ %d }}", id, id))
+			case 2:
+				if allowPanic && s.Chance(1, 2) {
+					*lines = append(*lines, fmt.Sprintf("{%% panic(\"s%d\") %%}", id))
+				} else {
+					*lines = append(*lines, fmt.Sprintf("{%% Point(%d) %%}", id))
+				}
+			case 3:
+				*lines = append(*lines, fmt.Sprintf("{%% if Yes(%d) %%}y{%% end %%}", id))
+			}
+		}
+	}
+	// lib.html: macros
+	var lib []string
+	nm := 1 + s.N(3)
+	for m := 1; m <= nm; m++ {
+		lib = append(lib, fmt.Sprintf("{%% macro M%d %%}", m))
+		body(1, &lib, 1+s.N(3), true)
+		if m > 1 && s.Bool() {
+			lib = append(lib, fmt.Sprintf("{{ M%d() }}", m-1))
+		}
+		lib = append(lib, "{% end macro %}")
+	}
+	ts.files["lib.html"] = strings.Join(lib, "\n") + "\n"
+	// index.html
+	var idx []string
+	extends := s.Chance(1, 3)
+	if extends {
+		idx = append(idx, `{% extends "layout.html" %}`)
+	}
+	idx = append(idx, `{% import "lib.html" %}`)
+	if extends {
+		idx = append(idx, "{% macro Body %}")
+	}
+	body(0, &idx, 1+s.N(3), false)
+	for m := 1; m <= nm; m++ {
+		if s.Chance(2, 3) {
+			idx = append(idx, fmt.Sprintf("{{ M%d() }}", m))
+		}
+	}
+	body(0, &idx, 1+s.N(2), true)
+	if extends {
+		idx = append(idx, "{% end macro %}")
+		var lay []string
+		body(2, &lay, 1+s.N(2), false)
+		lay = append(lay, "{{ Body() }}")
+		body(2, &lay, 1+s.N(2), false)
+		ts.files["layout.html"] = strings.Join(lay, "\n") + "\n"
+	}
+	ts.files["index.html"] = strings.Join(idx, "\n") + "\n"
+	return ts
+}
+
+type tmplResult struct {
+	err      error
+	panicked bool
+	pval     any
+	stack    string
+	events   []string
+	out      string
+}
+
+// execTemplate is the template half of the check: no gc reference exists for
+// templates, so panics are judged only when a single, un-nested panic ends the
+// run (its value, path and line are known by construction); Stop and Fatal are
+// self-referential as for programs.
+func execTemplate(r *harness.Run) *harness.Violation {
+	ts := genTemplateSet(r)
+	r.Artefact = map[string]any{"files": ts.files}
+	rec := &recorder{}
+	globals := native.Declarations{
+		"Point": hPackage(rec).Declarations["Point"],
+		"Yes":   func(id int) bool { return true },
+	}
+	fsys := scriggo.Files{}
+	for n, c := range ts.files {
+		fsys[n] = []byte(c)
+	}
+	t, err := scriggo.BuildTemplate(fsys, "index.html", &scriggo.BuildOptions{Globals: globals})
+	if err != nil {
+		r.Count("skipped.build_error", 1)
+		r.Logf("template build error: %v", err)
+		return nil
+	}
+	runT := func(pl plan) tmplResult {
+		*rec = recorder{plan: pl, stopE: errors.New("E: stop"), fatalV: &struct{ n int }{pl.k}}
+		var res tmplResult
+		var out strings.Builder
+		res.panicked, res.pval, res.stack = harness.Guard(func() { res.err = t.Run(&out, nil, nil) })
+		res.events = rec.events
+		res.out = out.String()
+		return res
+	}
+	ff := runT(plan{})
+	r.Evals(1)
+	if ff.panicked {
+		return harness.Violf("host-panic", "template, fault-free run: Run panicked into the host with %T %v\n%s", ff.pval, ff.pval, ff.stack)
+	}
+	// An explicit panic statement (single, never recovered: templates here
+	// have no defer) must be reported with its own value, path and line.
+	checkPanic := func(ctx string, err error, wantText string) *harness.Violation {
+		pe, ok := err.(*scriggo.PanicError)
+		if !ok {
+			return harness.Violf("template-wrong-outcome", "%s: Run returned %T %v, want a *PanicError %q", ctx, err, err, wantText)
+		}
+		if pe.String() != wantText || pe.Next() != nil || pe.Recovered() {
+			return harness.Violf("template-wrong-panic-value", "%s: PanicError is %q (next %v, recovered %v), want the single panic %q", ctx, pe.String(), pe.Next() != nil, pe.Recovered(), wantText)
+		}
+		id, _, ok := idOf(wantText)
+		if !ok {
+			harness.Fail("cannot decode id from %q", wantText)
+		}
+		if pe.Path() != tmplFiles[id/1000] || pe.Position().Line != id%1000 {
+			return harness.Violf("template-wrong-position", "%s: panic %q reports %s:%d, want %s:%d", ctx, wantText, pe.Path(), pe.Position().Line, tmplFiles[id/1000], id%1000)
+		}
+		return nil
+	}
+	if ff.err != nil {
+		// the fault-free run ends in an explicit panic statement: find it
+		pe, ok := ff.err.(*scriggo.PanicError)
+		if !ok {
+			return harness.Violf("template-wrong-outcome", "template, fault-free run: Run returned %T %v", ff.err, ff.err)
+		}
+		if v := checkPanic("template, fault-free run", ff.err, pe.String()); v != nil {
+			return v
+		}
+		if !strings.HasPrefix(pe.String(), "s") {
+			return harness.Violf("template-wrong-panic-value", "template, fault-free run: unexpected panic %q", pe.String())
+		}
+		r.Count("probe.template_explicit_panic", 1)
+	}
+	W := 0
+	var cut []int
+	for i, e := range ff.events {
+		if strings.HasPrefix(e, "P") {
+			W++
+			cut = append(cut, i+1)
+		}
+	}
+	key := fmt.Sprint(ts.files)
+	for k := 1; k <= W && k <= maxPoints; k++ {
+		ctx := fmt.Sprintf("template, Point call %d of %d (%s)", k, W, ff.events[cut[k-1]-1])
+		res := runT(plan{k, "stop"})
+		r.Evals(1)
+		r.Count("fault.template-stop", 1)
+		r.Distinct(fmt.Sprintf("%s|%d|stop", key, k))
+		if res.panicked {
+			return harness.Violf("stop-host-panic", "Stop at %s: Run panicked into the host with %T %v\n%s", ctx, res.pval, res.pval, res.stack)
+		}
+		if res.err != rec.stopE {
+			return harness.Violf("stop-wrong-error", "Stop at %s: Run returned %T %v, want the error passed to Stop itself", ctx, res.err, res.err)
+		}
+		if !sameEvents(res.events, ff.events[:cut[k-1]]) {
+			return harness.Violf("stop-code-ran-after", "Stop at %s: %s", ctx, diffEvents(res.events, ff.events[:cut[k-1]]))
+		}
+		if !strings.HasPrefix(ff.out, res.out) {
+			return harness.Violf("stop-code-ran-after", "Stop at %s: output %q is not a prefix of the fault-free output %q", ctx, res.out, ff.out)
+		}
+		res = runT(plan{k, "fatal"})
+		r.Evals(1)
+		r.Count("fault.template-fatal", 1)
+		r.Distinct(fmt.Sprintf("%s|%d|fatal", key, k))
+		if !res.panicked {
+			return harness.Violf("fatal-no-panic", "Fatal at %s: Run returned %T %v instead of panicking with the value", ctx, res.err, res.err)
+		}
+		if res.pval != rec.fatalV {
+			return harness.Violf("fatal-wrong-value", "Fatal at %s: Run panicked with %T %v, want the value passed to Fatal itself", ctx, res.pval, res.pval)
+		}
+		if !sameEvents(res.events, ff.events[:cut[k-1]]) {
+			return harness.Violf("fatal-code-ran-after", "Fatal at %s: %s", ctx, diffEvents(res.events, ff.events[:cut[k-1]]))
+		}
+		// host panic (string kind): un-nested, never recovered
+		res = runT(plan{k, "ps"})
+		r.Evals(1)
+		r.Count("fault.template-native-panic", 1)
+		r.Distinct(fmt.Sprintf("%s|%d|ps", key, k))
+		if res.panicked {
+			return harness.Violf("native-panic-host-panic", "native panic at %s: Run panicked into the host with %T %v\n%s", ctx, res.pval, res.pval, res.stack)
+		}
+		want := "hp" + strings.TrimPrefix(ff.events[cut[k-1]-1], "P")
+		if v := checkPanic("native panic at "+ctx, res.err, want); v != nil {
+			return v
+		}
+		if !sameEvents(res.events, ff.events[:cut[k-1]]) {
+			return harness.Violf("native-panic-wrong-events", "native panic at %s: %s", ctx, diffEvents(res.events, ff.events[:cut[k-1]]))
+		}
+	}
+	r.Sample(map[string]any{"template": true, "files": len(ts.files), "point_calls": W})
+	return nil
+}
+
 func exec(r *harness.Run) *harness.Violation {
+	if r.Feature("template", 1, 4) {
+		return execTemplate(r)
+	}
 	p := skel.Gen(r.S, skel.Options{Feature: r.Feature})
 	gp := gcref.Prog{Files: p.Files}
 	r.Artefact = map[string]any{"files": p.Files}
